@@ -67,9 +67,9 @@ fn main() {
                     for item in node.post_order_iter::<InternalSharing>() {
                         match item.node.inner() {
                             Inner::Witness(v) => println!("   witness {} : {}", v, item.node.arrow().target),
-                            Inner::AssertL(_, c) => println!("   assertl hidden {c}"),
-                            Inner::AssertR(c, _) => println!("   assertr hidden {c}"),
-                            Inner::Case(..) => println!("   case"),
+                            Inner::AssertL(_, c) => println!("   assertl hidden {} cmr {} ihr {} : {}", &c.to_string()[..8], &item.node.cmr().to_string()[..8], &item.node.ihr().to_string()[..8], item.node.arrow()),
+                            Inner::AssertR(c, _) => println!("   assertr hidden {} cmr {} ihr {} : {}", &c.to_string()[..8], &item.node.cmr().to_string()[..8], &item.node.ihr().to_string()[..8], item.node.arrow()),
+                            Inner::Case(..) => println!("   case cmr {} ihr {} : {}", &item.node.cmr().to_string()[..8], &item.node.ihr().to_string()[..8], item.node.arrow()),
                             _ => {}
                         }
                     }
